@@ -23,7 +23,7 @@ RULE = (
     "recipes from vlib.gen.Gen (every public operation of the table, and compositions) each built and computed under "
     "variants {global default config (spec=None), explicit Spec equal to the default, other work_dir, intermediate_store "
     "path, zarr_compressor None / explicit codec, reserved_mem 0, executor_name in the Spec, larger allowed_mem}; plus "
-    "memory-tight rechunks whose intermediate grid is rectilinear, computed with the executor named in the Spec being "
+    "Specs with the same memory for array data and a different reserve (allowed_mem = D + R, reserved_mem = R, R in {0, 1kB, 10kB, 1MB, 100MB}) at budgets D where the plan is tight (largest projection of the unoptimised plan, of the optimised plan, their midpoint), on fusion-heavy recipes; memory-tight rechunks whose intermediate grid is rectilinear, computed with the executor named in the Spec being "
     "single-threaded (baseline) / threads / processes. An "
     "evaluation = one (recipe, variant) outcome compared with the baseline variant; non-trivial = the recipe has a "
     "multi-block leaf and both outcomes were compared; distinct by hash of (recipe, variant)"
@@ -41,14 +41,18 @@ VARIANTS = ["global_default", "explicit_default", "other_work_dir", "intermediat
 
 def shards(tier, seed):
     return [{"n": PER_SHARD[tier], "maxdim": 8 if tier == "quick" else 11, "depth": 4 if tier == "quick" else 6,
-             "tight": 3 if tier == "quick" else 12, "watchdog_s": TIMEOUT[tier] - 30} for _ in range(NSHARDS[tier])]
+             "tight": 3 if tier == "quick" else 12, "shifted": 10 if tier == "quick" else 60, "watchdog_s": TIMEOUT[tier] - 30} for _ in range(NSHARDS[tier])]
 
 
 def spec_for(variant, wd, over=None):
     import cubed
 
     base = dict(work_dir=os.path.join(wd, "w"), allowed_mem="2GB", reserved_mem="100MB")
-    base.update(over or {})
+    base.update({k: v for k, v in (over or {}).items() if k != "data_mem"})
+    if variant.startswith("shifted:"):
+        # the same memory for array data, with a different reserve: allowed_mem = data + R, reserved_mem = R
+        r = int(variant.split(":")[1])
+        return cubed.Spec(**dict(base, allowed_mem=int(over["data_mem"]) + r, reserved_mem=r))
     if variant == "executor_threads":
         return cubed.Spec(**dict(base, executor_name="threads", executor_options={"max_workers": 3}))
     if variant == "executor_processes":
@@ -137,6 +141,29 @@ def compare_outcomes(recipe, np_vals, variant, base, got):
     return out
 
 
+def plan_budgets(recipe, wd):
+    """Data-memory budgets at which the plan of this recipe is tight: the largest projected memory of the unoptimised
+    plan, that of the default-optimised plan, and the midpoint (all with reserved_mem = 0)."""
+    import cubed
+
+    try:
+        spec = cubed.Spec(work_dir=os.path.join(wd, "w"), allowed_mem="2GB", reserved_mem=0)
+        env = gen.BuildEnv(spec, wd)
+        with warnings.catch_warnings():
+            warnings.simplefilter("ignore")
+            vals = gen.cu_build(recipe, env)
+            outs = [vals[i] for i in recipe["outputs"]]
+            p0 = cubed.plan(*outs, optimize_graph=False).max_projected_mem
+            p1 = cubed.plan(*outs, optimize_graph=True).max_projected_mem
+    except Exception:
+        return []
+    finally:
+        shutil.rmtree(wd, ignore_errors=True)
+    if not p0 or p0 < 64:
+        return []
+    return sorted({int(p0), int(p1), int((p0 + p1) // 2), int(p0) + 8, int(max(p0, p1) * 2)})
+
+
 def tight_rechunk_recipe(rng, wd):
     """A rechunk under a budget too small for copy chunks to span an axis, with source and target chunk sizes that do not
     nest: its intermediate array has a rectilinear (irregular) chunk grid. Candidates are screened by looking at the plan."""
@@ -173,7 +200,7 @@ def tight_rechunk_recipe(rng, wd):
     return recipe, irregular
 
 
-EXTRA = ("tight_rechunks_with_irregular_grid", "executor_matrix_outcomes", "outcomes_compared", "both_accepted", "both_refused", "numpy_checked")
+EXTRA = ("shifted_reserve_outcomes", "shifted_both_accepted", "tight_rechunks_with_irregular_grid", "executor_matrix_outcomes", "outcomes_compared", "both_accepted", "both_refused", "numpy_checked")
 
 
 def run_shard(spec, workdir):
@@ -213,6 +240,40 @@ def run_shard(spec, workdir):
         shutil.rmtree(wd, ignore_errors=True)
         if not res["samples"] and spec.get("shard", 0) == 0:
             res["samples"].append({"recipe": recipe, "variants": variants})
+    # the same data memory under different reserves, at budgets where fusion decisions are tight: acceptance and values
+    # may depend on allowed_mem - reserved_mem only
+    for k in range(spec.get("shifted", 6)):
+        wd = os.path.join(workdir, f"s{k}")
+        g = gen.Gen(rng.getrandbits(48), maxdim=spec["maxdim"], depth=spec["depth"], allow_zero=False,
+                    weights={"binary": 30, "unary": 12, "castchain": 6, "reduce": 8, "combo": 6, "linalg": 0, "multi": 0, "misc": 0, "create": 0, "index": 2, "manip": 4, "concat": 3, "cum": 0, "rechunk": 1})
+        g.maxblocks = 12
+        recipe, np_vals = g.generate()
+        budgets = plan_budgets(recipe, os.path.join(wd, "probe"))
+        if not budgets:
+            shutil.rmtree(wd, ignore_errors=True)
+            continue
+        data_mem = rng.choice(budgets)
+        recipe["spec_over"] = {"data_mem": data_mem}
+        base = run_variant(recipe, "shifted:0", os.path.join(wd, "base"))
+        for r_ in rng.sample([10_000, 1_000_000, 100_000_000, 1_000], 2):
+            v = f"shifted:{r_}"
+            got = run_variant(recipe, v, os.path.join(wd, "v"))
+            shutil.rmtree(os.path.join(wd, "v"), ignore_errors=True)
+            res["evaluations"] += 1
+            res["counters"]["outcomes_compared"] += 1
+            res["counters"]["shifted_reserve_outcomes"] += 1
+            _rc.bump(res["hist"]["config"], "shifted")
+            if got["exc"] is None and base["exc"] is None:
+                res["counters"]["both_accepted"] += 1
+                res["counters"]["shifted_both_accepted"] += 1
+            viols = compare_outcomes(recipe, np_vals, v, base, got)
+            for x in viols:
+                x["property"] = PROPERTY
+                x["msg"] = x["msg"].replace("explicit_default", "shifted:0") + f" | data memory {data_mem}"
+                x["case"] = {"recipe": recipe, "variant": v}
+            res["violations"].extend(viols)
+            res["nontrivial"].append(gen.rhash([recipe, v]))
+        shutil.rmtree(wd, ignore_errors=True)
     # executor matrix on memory-tight rechunks (rectilinear intermediates): the executor named in the Spec must not
     # change acceptance or values
     for k in range(spec.get("tight", 3)):
@@ -246,7 +307,7 @@ def replay(rep, workdir):
     res = _rc.new_result(EXTRA)
     case = rep["case"]
     np_vals = gen.np_eval(case["recipe"])
-    base = run_variant(case["recipe"], "explicit_default", os.path.join(workdir, "base"))
+    base = run_variant(case["recipe"], "shifted:0" if case["variant"].startswith("shifted:") else "explicit_default", os.path.join(workdir, "base"))
     got = run_variant(case["recipe"], case["variant"], os.path.join(workdir, "v"))
     print("replay base", base["phase"], base["exc"], "variant", got["phase"], got["exc"])
     viols = compare_outcomes(case["recipe"], np_vals, case["variant"], base, got)
@@ -266,6 +327,8 @@ def finalize(tier, merged):
             ("(recipe, variant) outcomes compared with the baseline variant", c.get("outcomes_compared", 0), 1400 if tier == "quick" else 7000),
             ("of which both accepted and values compared", c.get("both_accepted", 0), 800 if tier == "quick" else 4000),
             ("memory-tight rechunks with a rectilinear intermediate grid run under the executor matrix", c.get("tight_rechunks_with_irregular_grid", 0), 20 if tier == "quick" else 100),
+            ("outcomes compared between Specs with the same data memory and different reserves, at tight budgets", c.get("shifted_reserve_outcomes", 0), 200 if tier == "quick" else 1200),
+            ("of which both accepted and values compared", c.get("shifted_both_accepted", 0), 60 if tier == "quick" else 400),
             ("distinct operations of the table exercised", len(merged["hist"].get("ops", {})), 100),
         ],
         "assumptions": ASSUMPTIONS,
